@@ -425,7 +425,9 @@ theorem gv_moveToEnded (p q : Pool) (t : Nat) (h : p.moveToEnded t = some q) : g
   · simp only; split <;> simp
 
 @[simp] theorem gv_workerCancelled (p : Pool) (t : Nat) (tk : PTask) : gv (p.workerCancelled t tk) = gv p := by
-  unfold workerCancelled; simp only; split <;> simp
+  unfold workerCancelled; split
+  · simp
+  · simp only; split <;> simp
 
 @[simp] theorem gv_stepInWorker (p : Pool) (t : Nat) (tk : PTask) : gv (p.stepInWorker t tk) = gv p := by
   unfold stepInWorker; split
